@@ -316,6 +316,7 @@ def main(pid, tier):
     chk = Check("C12", tier)
     proj.ensure_venv()
     thorough = tier == "thorough"
+    chk.xc.__init__(every=40 if thorough else 25, first=1, cap=40 if thorough else 8, tlimit_ms=20_000)
     work = os.path.join(proj.scratch_root(), "c12")
     os.makedirs(work, exist_ok=True)
     exprs = gen_exprs(1200 if thorough else 260, chk.seed) + bundled_exprs(thorough)
@@ -381,6 +382,7 @@ def main(pid, tier):
             s.push()
             s.add(inv_axioms())
             r_ = str(s.check(R(got) != R(ref)))
+            chk.xc.sample(s, [R(got) != R(ref)], r_, name)
             s.pop()
             if r_ == "unsat":
                 chk.ok(name)
